@@ -24,7 +24,7 @@ pub fn mkfeed() -> i32 {
         let bytes = match spec["kind"].as_str().unwrap_or("") {
             "ident" => enc::es_frame(
                 17,
-                5,
+                spec["ca"].as_u64().unwrap_or(5),
                 icao,
                 enc::me_ident(spec["tc"].as_u64().unwrap_or(4), spec["cat"].as_u64().unwrap_or(0), spec["callsign"].as_str().unwrap_or("")),
             ),
@@ -34,18 +34,20 @@ pub fn mkfeed() -> i32 {
                 icao,
                 enc::me_ident(4, 0, spec["callsign"].as_str().unwrap_or("")),
             ),
-            "pos" => enc::es_frame(
-                17,
-                5,
-                icao,
-                enc::me_pos_latlon(
-                    spec["tc"].as_u64().unwrap_or(11),
-                    spec["alt"].as_i64().unwrap_or(10000),
-                    spec["odd"].as_u64().unwrap_or(0) == 1,
-                    spec["lat"].as_f64().unwrap_or(0.0),
-                    spec["lon"].as_f64().unwrap_or(0.0),
-                ),
-            ),
+            "pos" => {
+                let odd = spec["odd"].as_u64().unwrap_or(0) == 1;
+                let (lat, lon) = (spec["lat"].as_f64().unwrap_or(0.0), spec["lon"].as_f64().unwrap_or(0.0));
+                let tc = spec["tc"].as_u64().unwrap_or(11);
+                // "ac12": the raw 12-bit altitude code instead of an altitude in feet (0 = no altitude, 0x20a = 0 ft)
+                let me = match spec["ac12"].as_u64() {
+                    Some(ac) => {
+                        let (yz, xz) = crate::cprref::encode(lat, lon, odd);
+                        enc::me_pos(tc, 0, 0, ac, 0, odd, yz, xz)
+                    }
+                    None => enc::me_pos_latlon(tc, spec["alt"].as_i64().unwrap_or(10000), odd, lat, lon),
+                };
+                enc::es_frame(17, spec["ca"].as_u64().unwrap_or(5), icao, me)
+            }
             "vel" => enc::es_frame(
                 17,
                 5,
